@@ -28,7 +28,7 @@ PROPS = {
                 floors=dict(FAMS, **{"mode:load": 0.1, "budget<workers": 0.08, "budget<=loaded": 0.05, "tolerance-reached-early": 0.03, "latency:skewed": 0.5}),
                 assumptions=["ThreadSanitizer reports every data race between the executed threads (happens-before analysis)",
                              "worker schedules are perturbed by generated model latencies, not enumerated: a deadlock or lost wake-up that needs one specific interleaving can be missed"]),
-    "C13": grid_prop(280, 20000, size=120, quick=dict(cases=280, size=120, wall=900, shards=8, case_budget=60), extra_flavours=["serial", "omp"], runner_env={"VERIF_C13_SERIAL": ("serial", "c13runner"), "VERIF_C13_OMP": ("omp", "c13runner")},
+    "C13": grid_prop(280, 20000, size=120, schedule_dependent=True, quick=dict(cases=280, size=120, wall=900, shards=8, case_budget=60), extra_flavours=["serial", "omp"], runner_env={"VERIF_C13_SERIAL": ("serial", "c13runner"), "VERIF_C13_OMP": ("omp", "c13runner")},
                      floors={"points>=1000": 0.3}, 
                      assumptions=["no dynamic race detector understands libgomp here (ThreadSanitizer reports false races): only schedule-dependent OUTCOMES across thread counts are observed",
                                   "refinement tolerances come from a fixed palette, so a rounding difference in a reduction flipping a decision is improbable but not excluded; floats are compared to 1e-10 relative"]),
